@@ -60,9 +60,10 @@ D(t, r) == [type |-> t, req |-> r]
 DataFull == {D(t, FALSE) : t \in Types} \cup {D("string", TRUE), D("object-inline", TRUE)}
 DataMix == {D("string", FALSE), D("object-inline", TRUE)}
 
-StatusFull == {"ACTIVE", "INACTIVE", "PENDING_REVIEW", "S1"}
+\* OUTCOME_UNSPECIFIED: a status that merely ENDS in UNSPECIFIED (never declared first: J5Entity!AddStatus)
+StatusFull == {"ACTIVE", "INACTIVE", "PENDING_REVIEW", "S1", "OUTCOME_UNSPECIFIED"}
 StatusMin == {"ACTIVE"}
-StatusTwo == {"ACTIVE", "INACTIVE"}
+StatusTwo == {"ACTIVE", "INACTIVE", "OUTCOME_UNSPECIFIED"}
 
 Ev(n, fs) == [name |-> n, fields |-> fs]
 EventNames == {<<"create">>, <<"archive">>, <<"foo", "updated">>}
